@@ -675,6 +675,10 @@ fn multisig(state: &mut State, txscript: &mut TxScript) -> Result<bool, Interpre
         return Err(InterpreterError::InvalidStackOperation("PubKey count must be a positive number"));
     }
 
+    if pubkey_count as usize > state.stack.len() {
+        return Err(InterpreterError::InvalidStackOperation("PubKey count is greater than the number of items on the stack"));
+    }
+
     // Slice the correct amount of pubkeys off the stack in reverse order so we can pop them.
     let mut pubkeys = state.stack.split_off(state.stack.len() - pubkey_count as usize);
     pubkeys.reverse();
@@ -688,6 +692,10 @@ fn multisig(state: &mut State, txscript: &mut TxScript) -> Result<bool, Interpre
 
     if pubkey_count < sig_count {
         return Err(InterpreterError::InvalidStackOperation("PubKey count must be greater than or equal to Signature count"));
+    }
+
+    if sig_count as usize > state.stack.len() {
+        return Err(InterpreterError::InvalidStackOperation("Signature count is greater than the number of items on the stack"));
     }
 
     let sigs = state.stack.split_off(state.stack.len() - sig_count as usize);
